@@ -131,6 +131,8 @@ def classes(f):
         out.append("crlf")
     if f.get("via_file"):
         out.append("file-constructor")
+    elif f.get("nofinal") and not G.render(f).endswith("\n"):
+        out.append("no-final-line-end")
     if f.get("layout"):
         out.append("non-plain-layout")
     return sorted(set(out))
